@@ -3,7 +3,7 @@
 import z3
 from .common import *   # noqa: F401,F403
 from .common import (CONCRETE, prtpy, out, part_alg, objective, cg_kwargs, item_vars, numbers, present, named, names_of,
-                     zsum, zmax, zmin, zi, zq, rgs, block_sums, objective_z, optimal_among_partitions, multiset_eq,
+                     zsum, zmax, zmin, zi, zq, rgs, block_sums, objective_z, optimal_among_partitions, multiset_eq, ctx_cache,
                      item_term, describe, mod)
 
 
@@ -102,13 +102,14 @@ class Part:
         mx, mn = zmax(zs_full), zmin(zs_full)
         if k >= 2:
             conj_max = []; conj_min = []; conj_mf = []
-            for a in rgs(n, k):
-                ss = block_sums(a, xs, k)
-                if alg in ('greedy', 'kk'): conj_max.append(3 * k * mx <= (4 * k - 1) * zmax(ss))
-                if alg == 'greedy': conj_min.append((4 * k - 2) * mn >= (3 * k - 1) * zmin(ss))
+            # ITE-free forms:  a*max(r) <= b*max(P)  <=>  for every bin i of r there is a bin j of P with a*r_i <= b*P_j   (same for min)
+            parts = ctx_cache(('parts', n, k), lambda: [block_sums(a, xs, k) for a in rgs(n, k)])
+            for ss in parts:
+                if alg in ('greedy', 'kk'): conj_max += [z3.Or([3 * k * r <= (4 * k - 1) * s for s in ss]) for r in zs_full]
+                if alg == 'greedy': conj_min += [z3.Or([(4 * k - 2) * r >= (3 * k - 1) * s for s in ss]) for r in zs_full]
                 if alg == 'multifit':
                     it = self.kw.get('iterations', 10)
-                    conj_mf.append(100 * 2 ** it * mx <= (122 * 2 ** it + 100) * zmax(ss))
+                    conj_mf += [z3.Or([100 * 2 ** it * r <= (122 * 2 ** it + 100) * s for s in ss]) for r in zs_full]
             if conj_max: c.check('ratio-largest', z3.And(conj_max), '%s: largest sum above (4/3-1/(3k)) x optimum' % alg)
             if conj_min: c.check('ratio-smallest', z3.And(conj_min), 'greedy: smallest sum below (3k-1)/(4k-2) x optimum')
             if conj_mf: c.check('ratio-multifit', z3.And(conj_mf), 'multifit: largest sum above (1.22+2^-iterations) x optimum')
